@@ -6,6 +6,7 @@ import Driver.Proto
 import Beeb.Model.Catalog
 import Beeb.Spec.Info
 import Beeb.Model.Main
+import Std.Data.HashMap
 
 open Beeb Driver
 
@@ -94,6 +95,23 @@ partial def loop (h : IO.FS.Stream) (out : IO.FS.Stream) (st : DState) : IO Unit
         | _ => pure HostFile.missing)
       out.putStrLn "ok"
       loop h out { st with files := (p, hf) :: st.files.filter (fun e => e.1 != p) }
+  | ["filesparse", hp, nsec, path] =>
+    -- records of 4-byte LE sector index + 256 bytes; every other sector below nsec is zero
+    match unhex hp, nsec.toNat? with
+    | some p, some n =>
+      let b ← IO.FS.readBinFile path
+      let nrec := b.size / 260
+      let mut tbl : Std.HashMap Nat Sector := {}
+      for i in [0:nrec] do
+        let o := i * 260
+        let idx := (b.get! o).toNat + 256 * (b.get! (o+1)).toNat + 65536 * (b.get! (o+2)).toNat + 16777216 * (b.get! (o+3)).toNat
+        let mut sec : List Nat := []
+        for j in [0:256] do
+          sec := (b.get! (o + 4 + 255 - j)).toNat :: sec
+        tbl := tbl.insert idx sec
+      out.putStrLn "ok"
+      loop h out { st with files := (p, HostFile.sparse n tbl) :: st.files.filter (fun e => e.1 != p) }
+    | _, _ => out.putStrLn "bad-op"; loop h out st
   | ["clearfiles"] => out.putStrLn "ok"; loop h out { st with files := [] }
   | _ =>
     out.putStrLn (dispatch st line)
